@@ -467,7 +467,11 @@ func genC13(r *rand.Rand, n int, emit func(string)) {
 			}
 		case 8:
 			base := M{"action": "add-public-keys", "publicKeys": keys}
-			switch r.Intn(5) {
+			switch r.Intn(6) {
+			case 5:
+				// an otherwise valid patch whose action is spelled differently is not that action
+				base["action"] = pick(r, []string{"Add-Public-Keys", "ADD-PUBLIC-KEYS", " add-public-keys", "add-public-keys ", "add-public-keys\n", "add_public_keys", "add-public-key"})
+				label = "envelope/action-other-spelling"
 			case 0:
 				delete(base, "action")
 				label = "envelope/no-action"
